@@ -173,6 +173,17 @@ static void apply(const JV& m, mf::File& f, int n, std::vector<unsigned char>* b
 		std::string key = m["key"].str(), val = m["val"].str(); char kind = val[0] == '\'' ? 's' : 'i'; if (kind == 's') val = val.substr(1, val.size() - 2);
 		bool done = false; for (auto& c : f.hdus[0].cards) if (c.key == key) { c.val = val; c.kind = kind; done = true; }
 		if (!done) { auto& cs = f.hdus[0].cards; cs.insert(cs.begin() + std::min<size_t>(1, cs.size()), mf::Card{key, val, kind}); }
+	} else if (k == "rawcard") {
+		// header cards that carry no key/value pair, or a key without a value, where an auxiliary key stood
+		const std::string& c = m["cls"].str(); auto& cs = f.hdus[0].cards; std::string raw;
+		if (c == "history") raw = "HISTORY written by the verification harness";
+		else if (c == "comment") raw = "COMMENT a commentary card between the keys";
+		else if (c == "blank-keyword") raw = "        text under a blank keyword";
+		else if (c == "blank-value") raw = "KEYA    =";
+		else if (c == "no-equals") raw = "KEYA      1";
+		else raw = "KEYB    = 'unterminated";
+		if (c == "blank-value" || c == "no-equals") cs.erase(std::remove_if(cs.begin(), cs.end(), [&](const mf::Card& x) { return x.key == "KEYA"; }), cs.end());
+		cs.push_back(mf::Card{"", raw, 'r'});
 	} else if (k == "delcard") { auto& c = f.hdus[0].cards; std::string key = m["key"].str(); c.erase(std::remove_if(c.begin(), c.end(), [&](const mf::Card& x) { return x.key == key; }), c.end()); }
 	else if (k == "setaxis") { mf::HDU* h = hdu(m["hdu"].integer()); long a = m["axis"].integer(); if (h && a >= 1 && a <= (long)h->axes.size()) { h->axes[a - 1] = m["val"].integer(); size_t nel = 1; for (long x : h->axes) nel *= (size_t)x; if (nel < 4000000) h->data.resize(nel, 0x3ff0000000000000ull >> (h->bitpix == -32 ? 32 : 0)); } }
 	else if (k == "setnaxis") { mf::HDU* h = hdu(m["hdu"].integer()); if (h) { h->axes.resize(m["val"].integer(), 2); size_t nel = h->axes.empty() ? 0 : 1; for (long x : h->axes) nel *= (size_t)x; h->data.resize(nel, 0); } }
@@ -261,6 +272,10 @@ static int damaged_mode(const char* cases, uint64_t seed, const char* outp) {
 					sink = sink + (*t)(x.data());
 				  } }
 				{ Table o2; std::vector<unsigned char> good = mf::build(layout(base_spec(1), {})); o2.read_fits_mem(good.data(), good.size()); sink = sink + (*t == o2) + (*t == *t); }
+				// ... the auxiliary keys it lists: every entry can be looked up, an absent key is reported absent, a key can be added
+				for (size_t i = 0; i < t->get_naux_values(); i++) { const char* key = t->get_aux_key(i); const char* v = t->get_aux_value(key); sink = sink + (double)strlen(key) + (v ? (double)strlen(v) : 0.0); int iv = 0; t->read_key(key, iv); }
+				sink = sink + (t->get_aux_value("NOSUCHKEY") ? 1.0 : 0.0);
+				try { t->write_key("ADDEDKEY", "added"); } catch (std::exception&) {}
 				{ auto b = t->write_fits_mem(); free(b.first); }
 				if (how < 2) delete t; else splinetable_free(&ct);
 				r << ",\"empty\":false,\"W\":" << w << ",\"battery\":\"ok\"}"; return r.str();
